@@ -377,10 +377,18 @@ def main_check(prop_id, tier, replay=None):
                     break
         else:
             ctx = multiprocessing.get_context('fork')
+            limit = int(os.environ.get('VERIF_THOROUGH_TIMEOUT', '5400'))
             with ctx.Pool(NSHARDS) as pool:
-                parts = pool.map(
+                job = pool.map_async(
                     _shard_entry,
                     [(prop_id, tier, seed, s, NSHARDS) for s in range(NSHARDS)])
+                try:
+                    parts = job.get(timeout=limit)
+                except multiprocessing.TimeoutError:
+                    pool.terminate()
+                    print(f"HARNESS-ERROR: the thorough tier did not finish within {limit} s "
+                          "(inconclusive, not a violation)")
+                    return 2
             for part in parts:
                 if 'harness_error' in part:
                     print("HARNESS-ERROR (shard):\n" + part['harness_error'])
